@@ -158,3 +158,37 @@ Lemma model_shrink_up_in_place c s ptr osize oalign nsize nalign r :
   up c = true -> divides nalign ptr = true -> shrinks c = true -> is_last c s ptr osize = true ->
   raw_shrink c s ptr osize oalign nsize nalign r = (set_cur_pos s (up_alignZ (ptr + nsize) (malign s)), inl (mkRO ptr nsize false)).
 Proof. intros U D S L. unfold raw_shrink. rewrite D, S, L, U. reflexivity. Qed.
+
+(* ---------------- chunk growth: Arena.new_chunk_size composes calc_hint_from_capacity (C12), twice the previous
+   chunk size, the minimum chunk size and calc_size_from_hint exactly as append_for / grow_size /
+   ChunkSizeHint::{max, calc_size} do *)
+Theorem grow_size_hint_refines ps :
+  AllocSites.grow_size_hint ps = Ok (if W <=? 2 * ps then None else Some (2 * ps)).
+Proof.
+  unfold AllocSites.grow_size_hint, checked_mul. cbn [Word.run]. f_equal.
+  replace (ps * 2) with (2 * ps) by ring.
+  destruct (Z.ltb_spec (2 * ps) W); destruct (Z.leb_spec W (2 * ps)); try reflexivity; lia.
+Qed.
+
+Theorem hint_composition_refines req grown minimum :
+  AllocSites.hint_max req grown = Ok (Z.max req grown) /\
+  AllocSites.calc_size_hint (Z.max req grown) minimum = Ok (Z.max (Z.max req grown) minimum).
+Proof.
+  unfold AllocSites.calc_size_hint, AllocSites.hint_max. cbn [Word.run call bindc].
+  split; f_equal.
+  - destruct (Z.ltb_spec grown req); cbv iota; lia.
+  - destruct (Z.ltb_spec minimum (Z.max req grown)); cbv iota; lia.
+Qed.
+
+(* the model's chunk size, restated in those terms: the hint handed to calc_size_from_hint is
+   max (max required (2 * previous)) minimum, and a doubling that leaves usize is an error *)
+Lemma model_new_chunk_size c ps size align :
+  new_chunk_size c (Some ps) size align =
+  (let req := spec_hint (up c) (hs c) (ha c) size align in
+   if W <=? req then None else
+   if W <=? 2 * ps then None else
+   let hint := Z.max (Z.max req (2 * ps)) (min_chunk c) in
+   if W <=? spec_size0 (hs c) (ha c) hint then None else
+   let n := spec_size_from_hint (up c) (hs c) (ha c) hint in
+   if IMAX - (ha c - 1) <? n then None else Some n).
+Proof. reflexivity. Qed.
